@@ -232,6 +232,9 @@ def model(repo):
             c0 = init_of(cnt)
             if not (len(cc) == 1 and U(cc[0].value) == cnt and try_const(c0) == 0):
                 P(f"cell_count is not the number of records stored (counter `{cnt}`)")
+        rets = [n for n in body_walk(f) if isinstance(n, ast.Return)]
+        if not rets or any(not (isinstance(n.value, ast.Name) and n.value.id == msg) for n in rets):
+            P("some path does not return the row record (every grid row must be present in its tile, also a row without records)")
         wide = fields.get("has_wide_offsets", [])
         out["wide"] = try_const(wide[-1].value) if wide else None
         tri = fields.get("tile_row_index", [])
